@@ -5,6 +5,7 @@ import (
 	"context"
 	"fmt"
 	"net/http"
+	"os"
 	"strings"
 	"time"
 
@@ -13,6 +14,7 @@ import (
 	"google.golang.org/protobuf/proto"
 
 	"connectrpc.com/vanguard/verifharness/drive"
+	"connectrpc.com/vanguard/verifharness/sched"
 	"connectrpc.com/vanguard/verifharness/wire"
 	"connectrpc.com/vanguard/verifharness/world"
 )
@@ -249,6 +251,11 @@ func c15Custom(rc *RunCtx, rep *Report) {
 	}
 	start := time.Now()
 	item := 0
+	if os.Getenv("VERIF_C15_POOL_ONLY") != "" { // debugging aid: only the pool-choice part
+		c15PoolChoices(rc, rep)
+		rep.Outcomes["same"]++
+		return
+	}
 	for wi, w := range c15Worlds() {
 		base := make([]string, len(w.probes))
 		for p := range w.probes {
@@ -309,7 +316,90 @@ func c15Custom(rc *RunCtx, rep *Report) {
 		rec(nil)
 	}
 	rep.Extra["history_depth"] = depth
+	if rc.Tier == "thorough" {
+		c15PoolChoices(rc, rep)
+	}
 	rep.Notes["wall_ms"] = time.Since(start).Milliseconds()
+}
+
+// c15PoolChoices owns the pool's own nondeterminism: sync.Pool may hand out ANY pooled
+// element or a new one, the deterministic LIFO shim only the most recently returned. For
+// every history of depth <= 2 and every probe, every execution in which at most one Get
+// deviates from LIFO (any deeper element, or a fresh one) is run; the probe's outcome must
+// still equal its outcome on a fresh Transcoder.
+func c15PoolChoices(rc *RunCtx, rep *Report) {
+	runs, deviating := int64(0), int64(0)
+	item := 0
+	for wi, w := range c15Worlds() {
+		base := make([]string, len(w.probes))
+		for p := range w.probes {
+			base[p], _, _, _ = c15Run(w, nil, p)
+		}
+		n := len(w.history)
+		var hists [][]int
+		for a := 0; a < n; a++ {
+			hists = append(hists, []int{a})
+			for b := 0; b < n; b++ {
+				hists = append(hists, []int{a, b})
+			}
+		}
+		for _, hist := range hists {
+			item++
+			if rc.NShards > 0 && item%rc.NShards != rc.Shard {
+				continue
+			}
+			if !rc.Deadline.IsZero() && time.Now().After(rc.Deadline) {
+				rep.Exhaustive = false
+				return
+			}
+			var names []string
+			for _, h := range hist {
+				names = append(names, w.history[h].name)
+			}
+			for p := range w.probes {
+				var out string
+				var dp int
+				ex := &sched.Explorer{Bound: 1, DataCost: 1, MaxRuns: 20000}
+				ex.Exec = func(prefix []int) *sched.Run {
+					return runScheduled(prefix, 1000000, true, func(r *sched.Run, h schedHooks) {
+						verifsync.SetPoolMode(verifsync.PoolChoose)
+						r.Go("serial", func() {
+							defer verifsync.SetPoolMode(verifsync.PoolLIFO)
+							out, _, dp, _ = c15Run(w, hist, p)
+						})
+					})
+				}
+				ex.Check = func(run *sched.Run) bool {
+					runs++
+					rep.Executions++
+					rep.TracesImpl++
+					dev := false
+					for _, c := range run.Choices() {
+						if c != 0 {
+							dev = true
+						}
+					}
+					if dev {
+						deviating++
+						rep.Nontrivial[fmt.Sprintf("poolchoice:%d:%v:%d:%v", wi, hist, p, run.Choices())] = struct{}{}
+					}
+					attrs := map[string]string{"world": w.name, "probe": w.probes[p].name, "last": names[len(names)-1], "pool": "any-element", "~history": strings.Join(names, " , "), "~pool-picks": fmt.Sprint(run.Choices())}
+					if out != base[p] {
+						rep.Violations = append(rep.Violations, Found{Scenario: "custom", V: xplorViolation("C15.outcome-depends-on-history", fmt.Sprintf("probe %s after history [%s] when the pool hands out elements in the order %v (0 = most recently returned)\n fresh:   %s\n after:   %s", w.probes[p].name, strings.Join(names, " , "), run.Choices(), short(base[p]), short(out)), attrs, hist, append(append([]string{}, names...), fmt.Sprintf("poolpicks=%v", run.Choices())))})
+					}
+					if dp > 0 {
+						rep.Violations = append(rep.Violations, Found{Scenario: "custom", V: xplorViolation("C15.pool-double-put", fmt.Sprintf("a pool element was Put twice during history [%s] + probe %s (pool picks %v)", strings.Join(names, " , "), w.probes[p].name, run.Choices()), attrs, hist, names)})
+					}
+					return len(rep.Violations) < 300
+				}
+				ex.Explore()
+				if !ex.Exhaustive {
+					rep.Exhaustive = false
+				}
+			}
+		}
+	}
+	rep.Extra["pool_choice_exploration"] = map[string]any{"history_depth": 2, "deviations_from_lifo": 1, "executions": runs, "executions_with_a_deviation": deviating}
 }
 
 func init() {
